@@ -40,3 +40,9 @@ func VerifCapped(g *graph.DGraph, params graph.Params) (capped bool, iterations 
 	}
 	return false, i
 }
+
+// VerifVbalance runs the balancing step of the network-simplex layerer on g as it is (any feasible layering)
+func VerifVbalance(g *graph.DGraph) { vbalance(g) }
+
+// VerifNormalize runs normalize on g as it is
+func VerifNormalize(g *graph.DGraph) { normalize(g) }
